@@ -43,7 +43,7 @@ PROPS = {
                      "empty and universal languages); Complement judged by isComplM (proved, both clauses); non-trivial = both "
                      "L(A) and L(C) non-empty",
                 assumptions=PROOF_ASSUME),
-    "C07": dict(level="proof", plain=dict(quick=2000, thorough=30000), cli=dict(kinds=[("bddincl", 1)], quick=150, thorough=4000), kinds=[("bddincl", 30), ("bddinclall", 1), ("achain", 1), ("ordvec", 1), ("bddsim", 2), ("cacheh", 1), ("cliargs", 1)], n=dict(quick=7000, thorough=200000, search=6000),
+    "C07": dict(level="proof", plain=dict(quick=2000, thorough=30000), cli=dict(kinds=[("bddincl", 1)], quick=150, thorough=4000), kinds=[("bddincl", 30), ("bddinclall", 1), ("achain", 1), ("ordvec", 1), ("bddsim", 2), ("cacheh", 1), ("cliargs", 1), ("glue", 1)], n=dict(quick=7000, thorough=200000, search=6000),
                 rule="the pairs of C01 (random / derived / split / correlated shapes) loaded from Timbuk text into both BDD "
                      "encodings: top-down × {rec, rec+cache} × {no simulation, simulation computed by the library's bottom-up "
                      "path for the sanitised operands}, bottom-up × {upward, downward+simulation, default overload}; each verdict "
